@@ -109,7 +109,12 @@ func RunInBubble(prop string, sc *core.Scenario, keepLog bool, cfg world.Config,
 	cfg.UUIDSeed = sc.Seed
 	cfg.Trace = keepLog
 	e := &Env{Tr: tr, St: &res.Stats, Sc: sc, Prop: prop}
-	func() {
+	finished := make(chan struct{})
+	// synctest.Test calls t.FailNow (runtime.Goexit) when the bubble's test failed, which in a
+	// -race build happens whenever the detector reported something during the bubble: run it
+	// on a helper goroutine so that only the helper exits and the run can still be judged.
+	go func() {
+		defer close(finished)
 		defer func() {
 			if r := recover(); r != nil {
 				s := fmt.Sprint(r)
@@ -142,6 +147,7 @@ func RunInBubble(prop string, sc *core.Scenario, keepLog bool, cfg world.Config,
 			}
 		})
 	}()
+	<-finished
 	res.V = e.V
 	if res.V != nil {
 		res.V.Attrs = core.SortedKeys(e.Attrs)
